@@ -3,11 +3,14 @@
    Only imports and final statements; all proofs live in Proofs/ConsequentProofs.v.
 
    WHICH LOOP IS THE CURRENT CODE:  Consequent.code_has_F1 = true, i.e. `modify` = `modify_as_written`: the loop of
-   the pinned commit, whose hedged degree leaks into the following conclusions (DESIGN finding F1).  For that loop
-   the documented statement is REFUTED (section B); what it really computes is `modify_running_spec`.
-   When /repo is repaired, set `code_has_F1 := false` in Model/Consequent.v (one line): `modify` becomes
-   `modify_fixed`, every theorem below still compiles, and the two `_current` theorems of section A then state
-   the documented property (modify_spec, independence) of the current code instead of its refutation. *)
+   /repo, whose hedged degree leaks into the following conclusions (finding F1, a KNOWN finding: the repair breaks
+   the repository's golden-file test, so the code stays as written).  For that loop the documented statement
+   `modify_spec_for` is REFUTED (C07_modify_spec_refuted); the theorems of section B say what it computes
+   (C07_modify_running_spec) and exactly when it meets the documented statement (C07_modify_spec_when_unhedged,
+   C07_conclusions_independent_when_unhedged).  Section C proves the documented statement for the repaired loop
+   `modify_fixed`.  If /repo is ever repaired: set `code_has_F1 := false` in Model/Consequent.v (one line); every
+   theorem here still compiles, and the two `_current` theorems of section A then state the documented property
+   of the current code instead of its refutation. *)
 From Coq Require Import Bool String List Permutation Reals PrimFloat.
 From VF Require Import Num NumR NumF GenNorm GenHedge GenTerm Core Consequent ConsequentProofs.
 Import ListNotations.
@@ -102,6 +105,16 @@ Theorem C07_modify_spec_no_hedges : forall (T : Type) (NT : Num T) (d : T) imp c
 Proof. intros T NT. exact (@modify_spec_no_hedges T NT). Qed.
 Print Assumptions C07_modify_spec_no_hedges.
 
+Theorem C07_conclusions_independent_when_unhedged : forall (T : Type) (NT : Num T) (d : T) imp cs cs' outs,
+  cs <> [] -> wf outs cs -> Permutation cs cs' -> leak_free outs cs -> leak_free outs cs' ->
+  exists o1 o2, modify_as_written d imp cs outs = Ok o1 /\ modify_as_written d imp cs' outs = Ok o2 /\
+    forall i v, nth_error outs i = Some v ->
+      nth_error o1 i = Some (extend_fuzzy v (flat_map (contribution outs d imp i) cs)) /\
+      nth_error o2 i = Some (extend_fuzzy v (flat_map (contribution outs d imp i) cs')) /\
+      Permutation (flat_map (contribution outs d imp i) cs) (flat_map (contribution outs d imp i) cs').
+Proof. intros T NT. exact (@independent_when_unhedged T NT). Qed.
+Print Assumptions C07_conclusions_independent_when_unhedged.
+
 (* ===================================================================== C. the repaired loop *)
 Theorem C07_modify_spec : forall (T : Type) (NT : Num T), @modify_spec_for T NT modify_fixed.
 Proof. intros T NT. exact (@modify_fixed_spec T NT). Qed.
@@ -141,16 +154,16 @@ Print Assumptions C07_sanitize_reals.
    its terms — the hypotheses `cs <> []` and `wf outs cs` of the theorems above *)
 Theorem C07_load_wf : forall (T : Type) (NT : Num T) (e : engine T) tokens cs,
   load e tokens = Ok cs -> cs <> [] /\ wf (e_outputs e) cs.
-Proof. intros T NT. exact (@load_wf T NT). Qed.
+Proof. intros T NT. exact (@load_wf T). Qed.
 Print Assumptions C07_load_wf.
 
 Theorem C07_load_empty : forall (T : Type) (NT : Num T) (e : engine T), load e [] = Err ESyntax.
-Proof. intros T NT. exact (@load_empty T NT). Qed.
+Proof. intros T NT. exact (@load_empty T). Qed.
 Print Assumptions C07_load_empty.
 
 (* ===================================================================== F. non-vacuity *)
 (* the witness is what `load` produces from the rule text, it satisfies the hypotheses, and the numbers are 1/4, 1/2 *)
-Example C07_witness_loads : @load R NumR w_engine w_tokens = Ok w_cs /\ w_cs <> [] /\ @wf R w_outs w_cs.
+Example C07_witness_loads : @load R w_engine w_tokens = Ok w_cs /\ w_cs <> [] /\ @wf R w_outs w_cs.
 Proof. exact (conj w_load (conj (fun H => @nil_cons _ w_c1 [w_c2] (eq_sym H)) w_wf)). Qed.
 Print Assumptions C07_witness_loads.
 
